@@ -14,7 +14,7 @@ PROP = "C05"
 def run(rep, tier, kinds, prop, stackkw=None):
     import time
     t0 = common._real_time()
-    hs = CL.export_histories(rep, 2)
+    hs = CL.export_histories(rep, 2, wire_depth=(1 if tier == "quick" else 2))
     nsim, dsim = (40, 30) if tier == "quick" else (3000, 40)
     sims = CL.export_histories(rep, 0, simulate=nsim, sim_depth=dsim, seed=common.seed() + 11)
     sims += CL.random_histories(400 if tier == "quick" else 6000, 40 if tier == "quick" else 60, common.seed())
